@@ -251,12 +251,18 @@ class Run:
             res = self.incarnation().call(kind, {'project': project, 'release': release, 'generation': ghost,
                                                  'token': 900 + idx})
             self.stats['fault:nonexistent-generation-requested'] += 1
-            if res.ok:
-                bare = [r['actor'] for r in res.value['log'] if r.get('event') == 'apply' and r.get('state') is None
-                        and r['actor'] in set(self.persistent(target))]
+            leftover = []
+            if os.path.exists(self.logfile):  # what the actors logged before the action (possibly) failed
+                with open(self.logfile, encoding='utf-8') as handle:
+                    leftover = [json.loads(line) for line in handle if line.strip()]
+                os.unlink(self.logfile)
+            records = (res.value['log'] if res.ok else []) + leftover
+            bare = [r['actor'] for r in records if r.get('event') == 'apply' and r.get('state') is None
+                    and r['actor'] in set(self.persistent(target))]
+            if res.ok or bare:
                 raise base.Violation('no-state', f'op{idx} {kind} {target} generation {ghost} (never committed; '
-                                                 f'{len(gens)} exist): the action ran, actors {sorted(set(bare))} were '
-                                                 f'applied without any state', mode=kind)
+                                                 f'{len(gens)} exist): the action {"ran" if res.ok else "failed late"}, '
+                                                 f'actors {sorted(set(bare))} were applied without any state', mode=kind)
             return
         generation = len(gens) if op['gen'] is None else 1 + op['gen'] % len(gens)
         args = {'project': project, 'release': release, 'generation': None if op['gen'] is None else generation,
